@@ -122,7 +122,7 @@ struct ApplyMagnitudeImpl<Mag, ApplyAs::INTEGER_DIVIDE, T, is_T_integral> {
     static_assert(is_T_integral == std::is_integral<T>::value,
                   "Mismatched instantiation (should never be done manually)");
 
-    constexpr T operator()(const T &x) { return x / get_value<RealPart<T>>(MagInverseT<Mag>{}); }
+    constexpr T operator()(const T &x) { return divide(x, CanRepresentDivisor{}); }
 
     static constexpr bool would_overflow(const T &) { return false; }
 
@@ -130,6 +130,22 @@ struct ApplyMagnitudeImpl<Mag, ApplyAs::INTEGER_DIVIDE, T, is_T_integral> {
         constexpr auto mag_value_result = get_value_result<T>(MagInverseT<Mag>{});
         return TruncationChecker<T, mag_value_result.outcome == MagRepresentationOutcome::OK>::
             would_truncate(x, mag_value_result.value);
+    }
+
+ private:
+    // A floating point type can hold a tiny `Mag` (say, 10^-44 in `float`) whose inverse, the
+    // divisor, is too big for it.  In that case, multiply by `Mag` instead of dividing.
+    using CanRepresentDivisor =
+        stdx::bool_constant<(is_T_integral ||
+                             get_value_result<RealPart<T>>(MagInverseT<Mag>{}).outcome ==
+                                 MagRepresentationOutcome::OK)>;
+
+    static constexpr T divide(const T &x, std::true_type) {
+        return x / get_value<RealPart<T>>(MagInverseT<Mag>{});
+    }
+
+    static constexpr T divide(const T &x, std::false_type) {
+        return x * get_value<RealPart<T>>(Mag{});
     }
 };
 
